@@ -383,6 +383,7 @@ class C02(PoolMixin, RealScaleMixin, LegacyMixin, E2ECheck):
 
 class C03(SystematicMixin, E2ECheck):
     id = 'C03'
+    level = 'fault_enumeration'
     systematic = 'faults'
     oracle = staticmethod(oracles.oracle_c03)
     quick_examples = 32000
@@ -419,6 +420,7 @@ class C03(SystematicMixin, E2ECheck):
 
 class C05(SystematicMixin, LegacyMixin, E2ECheck):
     id = 'C05'
+    level = 'fault_enumeration'
     systematic = 'faults'
     systematic_kinds = ('upload-path-multi', 'upload-seek-multi',
                         'upload-nonseek-multi', 'copy-multi')
@@ -465,6 +467,7 @@ class C05(SystematicMixin, LegacyMixin, E2ECheck):
 
 class C06(PoolMixin, SystematicMixin, LegacyMixin, E2ECheck):
     id = 'C06'
+    level = 'fault_enumeration'
     pool_sigs = ('partial-visible', 'temp-file-at-done',
                  'failure-clobbered')
     systematic = 'faults'
